@@ -177,7 +177,8 @@ func sweep(p *Program, rep *PropertyReport, spec *PropertySpec, seed int64) map[
 	lines := map[string]map[int]bool{}
 	own := map[string]bool{}
 	for _, r := range spec.Rules {
-		own[r] = true
+		base, _, _ := strings.Cut(r, "/")
+		own[base] = true
 	}
 	for _, rr := range rep.Rules {
 		if !own[rr.Rule] {
